@@ -1,5 +1,5 @@
 (** C13 - Job bookkeeping: counters match tasks, complete exactly once, atomic submits. *)
-From HQ Require Import Base.Prelude Cluster.Types Cluster.Core Cluster.Reactor Cluster.Worker Cluster.Server Cluster.Sys Cluster.Monitors Cluster.ProofsJob Cluster.ProofsCore Cluster.ProofsMore.
+From HQ Require Import Base.Prelude Cluster.Types Cluster.Core Cluster.Reactor Cluster.Worker Cluster.Server Cluster.Sys Cluster.Monitors Cluster.ProofsJob Cluster.ProofsCore Cluster.ProofsMore Cluster.ProofsStep.
 From Coq Require Import ZArith.
 Local Open Scope N_scope.
 
@@ -11,6 +11,14 @@ Local Open Scope N_scope.
 Theorem C13_counters_exact : forall ops reserve maxfill s',
   jrun (init_sys reserve maxfill, []) ops = Ok s' -> hq_ok (fst s') = true.
 Proof. exact job_layer_counters_exact. Qed.
+
+(** The same for the WHOLE system model (core + workers + channels + job layer): after any history
+    of operations - client requests incl. submits, message deliveries in any order, scheduling rounds
+    with any solver answer, worker losses, task ends, timers - that the model processes without
+    panicking, the counters of every job are exact and the completion flag is sound. *)
+Theorem C13_system_counters_exact : forall ops reserve maxfill s outs,
+  run (init_sys reserve maxfill) ops = Ok (s, outs) -> hq_ok s = true.
+Proof. exact system_counters_exact. Qed.
 
 (** One step of the job layer preserves the invariant (the induction step of the theorem above). *)
 Theorem C13_invariant_step : forall s o s', HOK (hq_of s) -> jstep s o = Ok s' -> HOK (hq_of s').
@@ -32,6 +40,7 @@ Proof. exact auto_ids_exact. Qed.
 
 Check C13_counters_exact : forall ops reserve maxfill s', jrun (init_sys reserve maxfill, []) ops = Ok s' -> hq_ok (fst s') = true.
 Print Assumptions C13_counters_exact.
+Print Assumptions C13_system_counters_exact.
 Print Assumptions C13_invariant_step.
 Print Assumptions C13_waiting_count_exact.
 Print Assumptions C13_auto_ids_exact.
